@@ -153,7 +153,7 @@ def py_lww_live(ops):
 
 
 def generate(rng, tier):
-    n = dict(quick=2000, thorough=60000, search=30000)[tier]
+    n = dict(quick=2000, thorough=250000, search=30000)[tier]
     cases = []
     for i in range(n):
         lines, ops = gen_case(rng.fork(), i)
@@ -168,7 +168,7 @@ def generate(rng, tier):
                     out.append('will %d %d %d' % (r, k, st))
                     if st >= 512: out.append('will %d %d %d' % (r, 77, st - 256))
         cases.append(out)
-    for i in range(dict(quick=600, thorough=20000, search=8000)[tier]):
+    for i in range(dict(quick=600, thorough=100000, search=8000)[tier]):
         lines, ops = gen_timed(rng.fork(), n + i)
         cases.append(lines)
     return cases
